@@ -5,8 +5,9 @@
       along the same handle-local ghost state [lgh] as the judgement [ok] of
       Proofs/StackInvProofs.v: [d] is the list of table files the handle has
       dropped from tables.list by its own commit and still has to unlink, and
-      [fr lg] is its fresh, not yet listed table.  Every API program goes from
-      "owes nothing" to "owes nothing".
+      [fr lg] are its fresh, not yet listed tables.  Every API program (also
+      add_multi, which takes its first table back when the second is refused,
+      and clean, which only unlinks) goes from "owes nothing" to "owes nothing".
    2. A world invariant for crash-free runs: every table file is listed, or is
       the fresh table / a table still to unlink of a handle inside a call;
       together with the lock ownership invariant of Proofs/LockProofs.v.
@@ -31,12 +32,12 @@ Definition dead_upd (lg : lgh) (q : req) (rs : resp) (d : list nat) : list nat :
   end.
 
 Definition needs_nofresh (q : req) : bool :=
-  match q with QRenameTmp _ _ _ _ | QRemove PLL => true | _ => false end.
+  match q with QRemove PLL => true | _ => false end.
 
 Fixpoint res {A} (lg : lgh) (d : list nat) (p : prog A) (Q : lgh -> list nat -> A -> Prop) : Prop :=
   match p with
   | Ret a => Q lg d a
-  | Op q k => (needs_nofresh q = true -> fr lg = None) /\
+  | Op q k => (needs_nofresh q = true -> fr lg = []) /\
               forall rs, possible lg q rs -> res (nxt lg q rs) (dead_upd lg q rs d) (k rs) Q
   end.
 
@@ -57,7 +58,7 @@ Proof.
 Qed.
 
 Lemma res_op : forall B q (f : resp -> prog B) lg d Q,
-  (needs_nofresh q = true -> fr lg = None) ->
+  (needs_nofresh q = true -> fr lg = []) ->
   (forall rs, possible lg q rs -> res (nxt lg q rs) (dead_upd lg q rs d) (f rs) Q) ->
   res lg d (pbind (op q) f) Q.
 Proof. intros. cbn [pbind op res]. split; assumption. Qed.
@@ -80,13 +81,14 @@ Qed.
 Lemma calmp_op : forall A q (f : resp -> prog A), calm q = true -> (forall r, calmp (f r)) -> calmp (pbind (op q) f).
 Proof. intros. cbn [pbind op calmp]. split; assumption. Qed.
 
-Lemma nxt_calm_fr : forall lg q rs, calm q = true -> fr (nxt lg q rs) = fr lg.
+Lemma nxt_calm_fr : forall lg q rs, calm q = true -> incl (fr (nxt lg q rs)) (fr lg).
 Proof.
-  intros lg q rs H. destruct q as [p| | | | | | |p| |]; try discriminate H; cbn [nxt]; try reflexivity.
-  - destruct p; try reflexivity. destruct rs; reflexivity.
-  - destruct rs; reflexivity.
-  - destruct rs; reflexivity.
-  - destruct p; try reflexivity. discriminate H.
+  intros lg q rs H. destruct q as [p| | | | | | |p| | |]; try discriminate H; cbn [nxt]; try apply incl_refl.
+  - destruct p; try apply incl_refl. destruct rs; apply incl_refl.
+  - destruct rs; apply incl_refl.
+  - destruct rs; apply incl_refl.
+  - destruct p; try apply incl_refl; try discriminate H.
+    destruct (nxt_rmtab lg n rs) as [_ E]. cbn [nxt] in E. rewrite E. intros x Hx. apply in_rmv in Hx. apply Hx.
 Qed.
 
 Lemma incl_rm : forall n d, incl (rm n d) d.
@@ -94,24 +96,24 @@ Proof. intros n d x Hx. apply in_rm in Hx. apply Hx. Qed.
 
 Lemma dead_calm : forall lg q rs d, calm q = true -> incl (dead_upd lg q rs d) d.
 Proof.
-  intros lg q rs d H. destruct q as [p| | | | | | |p| |]; try discriminate H; cbn [dead_upd]; try apply incl_refl.
+  intros lg q rs d H. destruct q as [p| | | | | | |p| | |]; try discriminate H; cbn [dead_upd]; try apply incl_refl.
   - destruct p; try apply incl_refl. apply incl_rm.
   - destruct rs; try apply incl_refl. apply incl_rm.
 Qed.
 
 Lemma calm_nofresh : forall q, calm q = true -> needs_nofresh q = true -> False.
-Proof. intros q H1 H2. destruct q as [p| | | | | | |p| |]; try discriminate; destruct p; discriminate. Qed.
+Proof. intros q H1 H2. destruct q as [p| | | | | | |p| | |]; try discriminate; destruct p; discriminate. Qed.
 
 Lemma res_calm : forall A (p : prog A) lg d, calmp p ->
-  res lg d p (fun lg' d' _ => fr lg' = fr lg /\ incl d' d).
+  res lg d p (fun lg' d' _ => incl (fr lg') (fr lg) /\ incl d' d).
 Proof.
   induction p as [a|q k IH]; intros lg d H; cbn [res calmp] in *.
-  - split; [reflexivity|apply incl_refl].
+  - split; apply incl_refl.
   - destruct H as [Hq Hk]. split.
     + intro X. exfalso. eapply calm_nofresh; eauto.
     + intros rs _. eapply res_conseq; [apply IH; apply Hk|].
       cbn beta. intros lg' d' _ [E I]. split.
-      * rewrite E. apply nxt_calm_fr. exact Hq.
+      * eapply incl_tran; [exact E|]. apply nxt_calm_fr. exact Hq.
       * eapply incl_tran; [exact I|]. apply dead_calm. exact Hq.
 Qed.
 
@@ -175,23 +177,23 @@ Proof.
 Qed.
 
 (* unlinking a list of tables clears them from the debt *)
-Lemma res_remove_tabs : forall l lg d,
+Lemma res_remove_tabs : forall l lg d, fr lg = [] ->
   res lg d (remove_tabs l) (fun lg' d' _ => lg' = lg /\ d' = rms l d).
 Proof.
-  induction l as [|n t IH]; intros lg d; cbn [remove_tabs].
+  induction l as [|n t IH]; intros lg d Hfr; cbn [remove_tabs].
   - cbn. auto.
-  - apply res_op; [discriminate|]. intros rs _. cbn [nxt dead_upd]. apply IH.
+  - apply res_op; [discriminate|]. intros rs _. cbn [nxt dead_upd]. rewrite Hfr. apply IH. exact Hfr.
 Qed.
 
-Definition owes_nothing {A} (lg : lgh) (d : list nat) (_ : A) : Prop := fr lg = None /\ d = [].
+Definition owes_nothing {A} (lg : lgh) (d : list nat) (_ : A) : Prop := fr lg = [] /\ d = [].
 
 Lemma incl_nil_eq : forall (d : list nat), incl d [] -> d = [].
 Proof. intros [|x d] H; [reflexivity|]. exfalso. apply (H x). left. reflexivity. Qed.
 
-Lemma res_calm_nothing : forall A (p : prog A) lg, calmp p -> fr lg = None -> res lg [] p owes_nothing.
+Lemma res_calm_nothing : forall A (p : prog A) lg, calmp p -> fr lg = [] -> res lg [] p owes_nothing.
 Proof.
   intros A p lg H Hfr. eapply res_conseq; [apply res_calm; exact H|].
-  cbn beta. intros lg' d' a [E I]. split; [congruence|apply incl_nil_eq; exact I].
+  cbn beta. intros lg' d' a [E I]. rewrite Hfr in E. split; apply incl_nil_eq; assumption.
 Qed.
 
 Lemma filter_replaced : forall (run pre post cur : list nat) n,
@@ -207,10 +209,10 @@ Proof.
 Qed.
 
 Lemma res_compact_range : forall attempts first last expiry m lg,
-  fr lg = None -> res lg [] (compact_range attempts first last expiry m) owes_nothing.
+  fr lg = [] -> res lg [] (compact_range attempts first last expiry m) owes_nothing.
 Proof.
   intros attempts first last expiry m lg Hfr. unfold compact_range.
-  assert (Hdone : forall (lgx : lgh) (b : bool), fr lgx = None -> @owes_nothing (mem * bool) lgx [] (m, b))
+  assert (Hdone : forall (lgx : lgh) (b : bool), fr lgx = [] -> @owes_nothing (mem * bool) lgx [] (m, b))
     by (intros; split; [assumption|reflexivity]).
   destruct (Nat.leb last first && negb expiry); [cbn [res]; apply Hdone; exact Hfr|].
   apply res_op; [discriminate|]. intros r _.
@@ -218,14 +220,14 @@ Proof.
   apply res_op; [discriminate|]. intros c _. cbn [dead_upd].
   change (match c with SNames (Some l) => l | _ => [] end) with (lnames c).
   set (lg2 := nxt (nxt lg (QCreateExcl PLL) SOk) QReadList c).
-  assert (F2 : fr lg2 = None) by exact Hfr.
-  assert (Hrel : forall lgx, fr lgx = None ->
+  assert (F2 : fr lg2 = []) by exact Hfr.
+  assert (Hrel : forall lgx, fr lgx = [] ->
             res lgx [] (do! _ := op (QRemove PLL) in Ret (m, false)) owes_nothing).
   { intros lgx A. apply res_op; [intros _; exact A|]. intros rs _. cbn [nxt res dead_upd]. split; reflexivity. }
   destruct (negb (names_eqb (lnames c) (mnames m))); [apply Hrel; exact F2|].
   set (sub := range first last m).
   eapply res_bind; [apply res_calm; apply calmp_lock_tabs|].
-  cbn beta. intros lg3 d3 lkr [F3 I3]. apply incl_nil_eq in I3. subst d3. rewrite F2 in F3.
+  cbn beta. intros lg3 d3 lkr [F3 I3]. apply incl_nil_eq in I3. subst d3. rewrite F2 in F3. apply incl_nil_eq in F3.
   destruct lkr as [locks|]; [|apply Hrel; exact F3].
   apply res_op; [intros _; exact F3|]. intros r4 _. cbn [dead_upd].
   apply res_op; [discriminate|]. intros t [tmp ->]. cbn [dead_upd].
@@ -241,7 +243,7 @@ Proof.
     apply res_op; [intros _; reflexivity|]. intros nw (n & f & -> & _). cbn [dead_upd].
     apply res_op; [discriminate|]. intros r8 _.
     cbn [dead_upd nxt vw lk]. rewrite app_nil_r.
-    eapply res_bind; [apply res_remove_tabs|]. cbn beta. intros lg9 d9 _ [-> ->].
+    eapply res_bind; [apply res_remove_tabs; reflexivity|]. cbn beta. intros lg9 d9 _ [-> ->].
     rewrite rms_nil by (apply filter_replaced; exact Hfr2).
     apply res_calm_nothing; [|reflexivity].
     apply calmp_bind; [apply calmp_reload|]. intros rl.
@@ -249,11 +251,11 @@ Proof.
   - apply res_op; [discriminate|]. intros r7 _. cbn [dead_upd].
     eapply res_bind; [apply res_calm; apply calmp_remove_tlocks|].
     cbn beta. intros lg8 d8 _ [F8 I8]. apply incl_nil_eq in I8. subst d8.
-    apply Hrel. rewrite F8. reflexivity.
+    apply Hrel. apply incl_nil_eq. exact F8.
 Qed.
 
 Lemma res_auto_compact : forall attempts m lg,
-  fr lg = None -> res lg [] (auto_compact attempts m) owes_nothing.
+  fr lg = [] -> res lg [] (auto_compact attempts m) owes_nothing.
 Proof.
   intros attempts m lg Hfr. unfold auto_compact.
   destruct (suggest _) as [[s e]|]; [|cbn [res]; split; [exact Hfr|reflexivity]].
@@ -262,10 +264,10 @@ Proof.
 Qed.
 
 Lemma res_add : forall attempts kind auto m lg,
-  fr lg = None -> res lg [] (add attempts kind auto m) owes_nothing.
+  fr lg = [] -> res lg [] (add attempts kind auto m) owes_nothing.
 Proof.
   intros attempts kind auto m lg Hfr. unfold add.
-  assert (Hfail : forall lgx, fr lgx = None ->
+  assert (Hfail : forall lgx, fr lgx = [] ->
             res lgx [] (do! rl := reload attempts true m in Ret (fst rl, RLockFailure)) owes_nothing).
   { intros lgx A. apply res_calm_nothing; [|exact A]. apply calmp_bind; [apply calmp_reload|]. intros; exact I. }
   apply res_op; [discriminate|]. intros r _. cbn [dead_upd].
@@ -288,7 +290,7 @@ Proof.
       apply in_or_app. left. rewrite <- Eq. exact Hx1. }
     rewrite Hd.
     eapply res_bind; [apply res_calm; apply calmp_reload|].
-    cbn beta. intros lg9 d9 rl [F9 I9]. apply incl_nil_eq in I9. subst d9. cbn [fr] in F9.
+    cbn beta. intros lg9 d9 rl [F9 I9]. apply incl_nil_eq in I9. subst d9. cbn [fr] in F9. apply incl_nil_eq in F9.
     destruct auto.
     + eapply res_bind; [apply res_auto_compact; exact F9|].
       cbn beta. intros lg10 d10 m' H. cbn [res]. exact H.
@@ -303,6 +305,90 @@ Proof.
     apply res_op; [intros _; exact Hfr|]. intros r6 _. cbn [dead_upd res]. split; reflexivity.
 Qed.
 
+Lemma nxt_opentab_same : forall lg n r,
+  lk (nxt lg (QOpenTab n) r) = lk lg /\ vw (nxt lg (QOpenTab n) r) = vw lg /\ fr (nxt lg (QOpenTab n) r) = fr lg.
+Proof. intros lg n r. destruct r; repeat split. Qed.
+
+Lemma res_add_multi : forall attempts tx same m lg,
+  fr lg = [] -> res lg [] (add_multi attempts tx same m) owes_nothing.
+Proof.
+  intros attempts tx same m lg Hfr. unfold add_multi.
+  apply res_op; [discriminate|]. intros r _. cbn [dead_upd].
+  destruct r; try (cbn [nxt res]; split; [exact Hfr|reflexivity]).
+  apply res_op; [discriminate|]. intros c _. cbn [dead_upd].
+  change (match c with SNames (Some l) => l | _ => [] end) with (lnames c).
+  destruct (names_eqb (lnames c) (mnames m)) eqn:Eq; cbn [negb].
+  2:{ apply res_op; [intros _; exact Hfr|]. intros r3 _. cbn [dead_upd res]. split; reflexivity. }
+  apply list_nat_eqb_eq in Eq.
+  apply res_op; [discriminate|]. intros t [tmp ->]. cbn [dead_upd].
+  apply res_op; [discriminate|]. intros r5 _. cbn [dead_upd].
+  apply res_op; [discriminate|]. intros nw (n1 & f1 & -> & _). cbn [dead_upd].
+  apply res_op; [discriminate|]. intros r7 _. cbn [dead_upd].
+  apply res_op; [discriminate|]. intros t2 [tmp2 ->]. cbn [dead_upd].
+  set (lg8 := nxt (nxt (nxt (nxt (nxt (nxt (nxt lg (QCreateExcl PLL) SOk) QReadList c) QCreateTemp (STmp tmp))
+                (QOpenTmp tmp) r5) (QRenameTmp tmp (next_index m) (next_index m) [tx]) (SNew n1 f1))
+                (QRemove (PTmp tmp)) r7) QCreateTemp (STmp tmp2)).
+  assert (F8 : fr lg8 = [n1]) by (cbn [lg8 nxt fr]; rewrite Hfr; reflexivity).
+  assert (V8 : vw lg8 = Some (lnames c)) by reflexivity.
+  destruct same.
+  - apply res_op; [discriminate|]. intros r9 _. cbn [dead_upd].
+    apply res_op; [discriminate|]. intros r10 _. cbn [dead_upd rm remove].
+    set (lg10 := nxt (nxt lg8 (QRemove (PTmp tmp2)) r9) (QRemove (PT n1)) r10).
+    assert (F10 : fr lg10 = []).
+    { destruct (nxt_rmtab (nxt lg8 (QRemove (PTmp tmp2)) r9) n1 r10) as [_ E]. unfold lg10. rewrite E.
+      change (fr (nxt lg8 (QRemove (PTmp tmp2)) r9)) with (fr lg8). rewrite F8. cbn. rewrite Nat.eqb_refl. reflexivity. }
+    apply res_op; [intros _; exact F10|]. intros r11 _. cbn [dead_upd res]. split; reflexivity.
+  - apply res_op; [discriminate|]. intros r9 _. cbn [dead_upd].
+    set (lg9 := nxt lg8 (QOpenTab n1) r9).
+    destruct (nxt_opentab_same lg8 n1 r9) as (L9 & V9 & F9). fold lg9 in L9, V9, F9.
+    apply res_op; [discriminate|]. intros r10 _. cbn [dead_upd].
+    apply res_op; [discriminate|]. intros nw2 (n2 & f2 & -> & _). cbn [dead_upd].
+    apply res_op; [discriminate|]. intros r12 _. cbn [dead_upd].
+    apply res_op; [discriminate|]. intros r13 _.
+    cbn [dead_upd nxt vw lk]. rewrite V9, V8, app_nil_r.
+    assert (Hd : filter (fun x => negb (mem_nat x (mnames m ++ [n1; n2]))) (lnames c) = []).
+    { apply incl_nil_eq. intros x Hx. apply filter_In in Hx as [Hx1 Hx2].
+      apply negb_true_iff in Hx2. apply mem_nat_false in Hx2. apply Hx2.
+      apply in_or_app. left. rewrite <- Eq. exact Hx1. }
+    rewrite Hd.
+    apply res_calm_nothing; [|reflexivity].
+    apply calmp_bind; [apply calmp_reload|]. intros rl. exact I.
+Qed.
+
+Lemma calmp_clean_loop : forall fuel cands mx, calmp (clean_loop fuel cands mx).
+Proof.
+  induction fuel as [|f IH]; intros cands mx; cbn [clean_loop].
+  - destruct cands; exact I.
+  - destruct cands as [|c cs]; [exact I|].
+    apply calmp_op; [reflexivity|]. intro r. destruct r as [| | | | | | | |n o|]; try exact I.
+    destruct o as [tf|]; [|apply IH].
+    destruct (tf_max tf <=? mx)%N; [|apply IH].
+    apply calmp_op; [reflexivity|]. intros _. apply IH.
+Qed.
+
+Lemma res_clean : forall attempts m lg,
+  fr lg = [] -> res lg [] (clean attempts m) owes_nothing.
+Proof.
+  intros attempts m lg Hfr. unfold clean.
+  assert (Hrel : forall lgx (x : mem * apires), fr lgx = [] ->
+            res lgx [] (do! _ := op (QRemove PLL) in Ret x) owes_nothing).
+  { intros lgx x A. apply res_op; [intros _; exact A|]. intros rs _. cbn [nxt res dead_upd]. split; reflexivity. }
+  apply res_op; [discriminate|]. intros r _. cbn [dead_upd].
+  destruct r; try (cbn [nxt res]; split; [exact Hfr|reflexivity]).
+  apply res_op; [discriminate|]. intros c _. cbn [dead_upd].
+  set (lg2 := nxt (nxt lg (QCreateExcl PLL) SOk) QReadList c).
+  assert (F2 : fr lg2 = []) by exact Hfr.
+  destruct (negb (names_eqb _ (mnames m))); [apply Hrel; exact F2|].
+  eapply res_bind; [apply res_calm; apply calmp_reload|].
+  cbn beta. intros lg3 d3 rl [F3 I3]. apply incl_nil_eq in I3. subst d3. rewrite F2 in F3. apply incl_nil_eq in F3.
+  destruct (snd rl); [|apply Hrel; exact F3].
+  apply res_op; [discriminate|]. intros dres _. cbn [dead_upd nxt].
+  destruct (fst rl) as [|x m']; [apply Hrel; exact F3|].
+  eapply res_bind; [apply res_calm; apply calmp_clean_loop|].
+  cbn beta. intros lg4 d4 _ [F4 I4]. apply incl_nil_eq in I4. subst d4. rewrite F3 in F4. apply incl_nil_eq in F4.
+  apply Hrel. exact F4.
+Qed.
+
 Lemma res_wrap : forall A (p : prog A) f lg,
   res lg [] p owes_nothing -> res lg [] (wrap p f) owes_nothing.
 Proof.
@@ -310,15 +396,17 @@ Proof.
 Qed.
 
 Theorem res_call_prog : forall attempts o m lg,
-  fr lg = None -> res lg [] (call_prog attempts o m) owes_nothing.
+  fr lg = [] -> res lg [] (call_prog attempts o m) owes_nothing.
 Proof.
   intros attempts o m lg Hfr.
   assert (Hret : forall x : option mem * apires, res lg [] (Ret x) owes_nothing)
     by (intro x; cbn [res]; split; [exact Hfr|reflexivity]).
   destruct o; destruct m as [mm|]; cbn [call_prog]; try apply Hret;
-    try (apply res_wrap; first [apply res_add; exact Hfr
+    try (apply res_wrap; first [apply res_add; exact Hfr | apply res_add_multi; exact Hfr | apply res_clean; exact Hfr
                                | apply res_calm_nothing; [first [apply calmp_reload|apply calmp_open_reload|apply calmp_close]|exact Hfr]]).
   - destruct mm; [apply Hret|]. apply res_wrap. apply res_compact_range. exact Hfr.
+  - destruct (Nat.ltb last (length mm) && Nat.leb first last); [|apply Hret].
+    apply res_wrap. apply res_compact_range. exact Hfr.
   - destruct mm; [apply Hret|]. apply res_wrap. apply res_compact_range. exact Hfr.
 Qed.
 
@@ -335,8 +423,8 @@ Proof. intros s P Q H C n Hn. destruct (C n Hn); [left|right]; auto. Qed.
 Definition side (h : nat) (s : fs) (lg : lgh) (q : req) : Prop :=
   match q with
   | QCommitList names =>
-      f_lock s = Some h /\ vw lg = Some (listed_fs s) /\ exists n0, fr lg = Some n0 /\ In n0 names
-  | QRenameTmp _ _ _ _ | QRemove PLL => fr lg = None
+      f_lock s = Some h /\ vw lg = Some (listed_fs s) /\ forall n0, In n0 (fr lg) -> In n0 names
+  | QRemove PLL => fr lg = []
   | _ => True
   end.
 
@@ -347,25 +435,43 @@ Proof.
   destruct (C n Hn); [left|right]; auto.
 Qed.
 
-Lemma cover_del : forall s s' m d lgfr (R : nat -> Prop),
+Lemma cover_del : forall s s' m d (lgfr lgfr' : list nat) (R : nat -> Prop),
   f_tabs s' = del m (f_tabs s) -> f_list s' = f_list s ->
-  cover s (fun n => lgfr = Some n \/ In n d \/ R n) ->
-  cover s' (fun n => lgfr = Some n \/ In n (rm m d) \/ R n).
+  (forall x, In x lgfr -> x <> m -> In x lgfr') ->
+  cover s (fun n => In n lgfr \/ In n d \/ R n) ->
+  cover s' (fun n => In n lgfr' \/ In n (rm m d) \/ R n).
 Proof.
-  intros s s' m d lgfr R Et El C n Hn. unfold listed_fs. rewrite El. rewrite Et in Hn.
+  intros s s' m d lgfr lgfr' R Et El Hf C n Hn. unfold listed_fs. rewrite El. rewrite Et in Hn.
   rewrite lookup_del in Hn. destruct (Nat.eqb_spec n m) as [E|E]; [congruence|].
   destruct (C n Hn) as [A|[A|[A|A]]]; auto.
   right. right. left. apply in_rm. split; assumption.
 Qed.
 
+(* the same when the file was not there *)
+Lemma cover_nodel : forall s m d (lgfr lgfr' : list nat) (R : nat -> Prop),
+  lookup m (f_tabs s) = None ->
+  (forall x, In x lgfr -> x <> m -> In x lgfr') ->
+  cover s (fun n => In n lgfr \/ In n d \/ R n) ->
+  cover s (fun n => In n lgfr' \/ In n (rm m d) \/ R n).
+Proof.
+  intros s m d lgfr lgfr' R E Hf C x Hx. destruct (Nat.eq_dec x m) as [->|Hne]; [congruence|].
+  destruct (C x Hx) as [A|[A|[A|A]]]; auto.
+  right. right. left. apply in_rm. split; assumption.
+Qed.
+
+Lemma fr_rmtab_keep : forall lg n rs x, In x (fr lg) -> x <> n -> In x (fr (nxt lg (QRemove (PT n)) rs)).
+Proof.
+  intros lg n rs x Hx Hne. destruct (nxt_rmtab lg n rs) as [_ E]. rewrite E. apply in_rmv. split; assumption.
+Qed.
+
 Lemma cover_step : forall so c h q s lg d s' rs fe (R : nat -> Prop),
   apply_req so c h q s = (s', rs, fe) -> side h s lg q ->
-  cover s (fun n => fr lg = Some n \/ In n d \/ R n) ->
-  cover s' (fun n => fr (nxt lg q rs) = Some n \/ In n (dead_upd lg q rs d) \/ R n).
+  cover s (fun n => In n (fr lg) \/ In n d \/ R n) ->
+  cover s' (fun n => In n (fr (nxt lg q rs)) \/ In n (dead_upd lg q rs d) \/ R n).
 Proof.
   intros so c h q s lg d s' rs fe R Hap Hside Hcov.
-  assert (Hid : forall n, fr lg = Some n \/ In n d \/ R n -> fr lg = Some n \/ In n d \/ R n) by auto.
-  destruct q as [p| |n|t| |t mn mx txs|names|p|cands| ]; cbn [apply_req] in Hap.
+  assert (Hid : forall n, In n (fr lg) \/ In n d \/ R n -> In n (fr lg) \/ In n d \/ R n) by auto.
+  destruct q as [p| |n|t| |t mn mx txs|names|p|cands|cands| ]; cbn [apply_req] in Hap.
   - (* QCreateExcl *)
     destruct p; try (inversion Hap; subst; exact Hcov).
     + destruct (f_lock s); inversion Hap; subst; [exact Hcov|].
@@ -382,18 +488,18 @@ Proof.
     + cbn [nxt dead_upd fr]. intros x Hn. cbn [f_tabs] in Hn. unfold listed_fs. cbn [f_list].
       rewrite lookup_app in Hn. destruct (lookup x (f_tabs s)) eqn:E.
       * assert (X : lookup x (f_tabs s) <> None) by congruence.
-        destruct (Hcov x X) as [A|[A|[A|A]]]; auto. congruence.
+        destruct (Hcov x X) as [A|[A|[A|A]]]; auto. right. left. right. exact A.
       * cbn [lookup] in Hn. destruct (Nat.eqb_spec x (f_next_tab s)); [|congruence].
-        subst. right. left. reflexivity.
+        subst. right. left. left. reflexivity.
     + exact Hcov.
   - (* QCommitList *)
-    destruct Hside as (Hlock & Hvw & n0 & Hfr & Hn0). rewrite Hlock, Nat.eqb_refl in Hap.
+    destruct Hside as (Hlock & Hvw & Hfr). rewrite Hlock, Nat.eqb_refl in Hap.
     inversion Hap; subst; clear Hap.
     cbn [nxt dead_upd fr]. rewrite Hvw. intros x Hn. cbn [f_tabs] in Hn. unfold listed_fs at 1. cbn [f_list].
     destruct (mem_nat x names) eqn:Em; [left; apply mem_nat_In; exact Em|].
     destruct (Hcov x Hn) as [A|[A|[A|A]]].
     + right. right. left. apply in_or_app. left. apply filter_In. split; [exact A|]. rewrite Em. reflexivity.
-    + rewrite Hfr in A. inversion A; subst. apply mem_nat_false in Em. contradiction.
+    + apply Hfr in A. apply mem_nat_false in Em. contradiction.
     + right. right. left. apply in_or_app. right. exact A.
     + right. right. right. exact A.
   - (* QRemove *)
@@ -401,15 +507,13 @@ Proof.
     + cbn [side] in Hside.
       destruct (f_lock s); inversion Hap; subst; clear Hap; cbn [nxt dead_upd fr].
       * eapply cover_same; [reflexivity|reflexivity| |exact Hcov].
-        intros x [A|A]; [congruence|auto].
+        intros x [A|A]; [rewrite Hside in A; destruct A|auto].
       * eapply cover_same; [reflexivity|reflexivity| |exact Hcov].
-        intros x [A|A]; [congruence|auto].
-    + cbn [nxt dead_upd].
+        intros x [A|A]; [rewrite Hside in A; destruct A|auto].
+    + cbn [dead_upd].
       destruct (lookup n (f_tabs s)) eqn:E; inversion Hap; subst; clear Hap.
-      * eapply cover_del; [reflexivity|reflexivity|exact Hcov].
-      * intros x Hx. destruct (Nat.eq_dec x n) as [->|Hne]; [congruence|].
-        destruct (Hcov x Hx) as [A|[A|[A|A]]]; auto.
-        right. right. left. apply in_rm. split; assumption.
+      * eapply cover_del; [reflexivity|reflexivity|apply fr_rmtab_keep|exact Hcov].
+      * eapply cover_nodel; [exact E|apply fr_rmtab_keep|exact Hcov].
     + destruct (lookup n (f_tlocks s)); inversion Hap; subst; [|exact Hcov].
       cbn [nxt dead_upd]. eapply cover_same; [reflexivity|reflexivity|exact Hid|exact Hcov].
     + cbn [nxt dead_upd fr].
@@ -420,10 +524,10 @@ Proof.
     match type of Hap with context [lookup ?x (f_tabs s)] => set (m := x) in * end.
     cbn [nxt].
     destruct (lookup m (f_tabs s)) eqn:E; inversion Hap; subst; clear Hap; cbn [dead_upd].
-    + eapply cover_del; [reflexivity|reflexivity|exact Hcov].
-    + intros x Hx. destruct (Nat.eq_dec x m) as [->|Hne]; [congruence|].
-      destruct (Hcov x Hx) as [A|[A|[A|A]]]; auto.
-      right. right. left. apply in_rm. split; assumption.
+    + eapply cover_del; [reflexivity|reflexivity| |exact Hcov]. auto.
+    + eapply cover_nodel; [exact E| |exact Hcov]. auto.
+  - match type of Hap with context [lookup ?x (f_tabs s)] => destruct (lookup x (f_tabs s)) end;
+      inversion Hap; subst; exact Hcov.
   - inversion Hap; subst. exact Hcov.
 Qed.
 
@@ -439,7 +543,7 @@ Lemma valid_apply : forall so ch h q s s' rs fe N,
 Proof.
   intros so ch h q s s' rs fe N Hh Hap (V1 & V2 & V3).
   assert (Hs : valid_owners s N) by (repeat split; assumption).
-  destruct q as [p| |n|t| |t mn mx txs|names|p|cands| ]; cbn [apply_req] in Hap.
+  destruct q as [p| |n|t| |t mn mx txs|names|p|cands|cands| ]; cbn [apply_req] in Hap.
   - destruct p; try (inversion Hap; subst; exact Hs).
     + destruct (f_lock s); inversion Hap; subst; [exact Hs|].
       repeat split; cbn [f_lock f_tlocks f_tmps]; auto. intros c E. inversion E; subst. exact Hh.
@@ -470,6 +574,8 @@ Proof.
   - match type of Hap with context [lookup ?x (f_tabs s)] => destruct (lookup x (f_tabs s)) end;
       inversion Hap; subst; [|exact Hs].
     repeat split; cbn [f_lock f_tlocks f_tmps]; auto.
+  - match type of Hap with context [lookup ?x (f_tabs s)] => destruct (lookup x (f_tabs s)) end;
+      inversion Hap; subst; exact Hs.
   - inversion Hap; subst; exact Hs.
 Qed.
 
@@ -510,7 +616,6 @@ Lemma gupd_other : forall gh h x i, i <> h -> gupd gh h x i = gh i.
 Proof. intros. unfold gupd. destruct (Nat.eqb_spec i h); [contradiction|reflexivity]. Qed.
 
 Definition hinvR (γ : ghost) (s : fs) (gh : ghosts) (i : nat) (hd : handle) : Prop :=
-  forallb modelled (h_script hd) = true /\
   (forall m, h_mem hd = Some m -> memok γ m) /\
   match h_pc hd with
   | HDead => False
@@ -521,7 +626,7 @@ Definition hinvR (γ : ghost) (s : fs) (gh : ghosts) (i : nat) (hd : handle) : P
 
 Definition owes (hs : list handle) (gh : ghosts) (n : nat) : Prop :=
   exists i hd o p, nth_error hs i = Some hd /\ h_pc hd = HRun o p /\
-                   (fr (fst (gh i)) = Some n \/ In n (snd (gh i))).
+                   (In n (fr (fst (gh i))) \/ In n (snd (gh i))).
 
 Record RInv (γ : ghost) (gh : ghosts) (w : world) : Prop := {
   r_GI : GI γ (w_fs w);
@@ -535,7 +640,7 @@ Lemma hinvR_other : forall γ s γ' s' gh gh' i hd,
   GI γ s -> frame γ s γ' s' -> keepsL i γ s γ' s' -> keepsT i s s' -> gh' i = gh i ->
   hinvR γ s gh i hd -> hinvR γ' s' gh' i hd.
 Proof.
-  intros γ s γ' s' gh gh' i hd HG HF KL KT Eg (A & B & C). split; [exact A|]. split.
+  intros γ s γ' s' gh gh' i hd HG HF KL KT Eg (B & C). split.
   - intros m E. eapply memok_stable; eauto.
   - destruct (h_pc hd); auto. rewrite Eg. destruct C as (C1 & C2 & C3). split; [|split; assumption].
     apply interp_stable with (γ := γ) (s := s); auto.
@@ -646,7 +751,7 @@ Proof.
   { destruct (drop h busy) as [|x l] eqn:Ed; [|reflexivity]. cbn [negb].
     apply quiescent_clean with (γ := γ) (gh := gh); [exact HR|].
     intros i hd En. destruct (Nat.eq_dec i h) as [->|Hne]; [apply Hh; exact En|].
-    pose proof (r_h _ _ _ HR i hd En) as (_ & _ & X).
+    pose proof (r_h _ _ _ HR i hd En) as (_ & X).
     destruct (h_pc hd) as [|o0 p0|] eqn:Epc; [reflexivity| |destruct X].
     exfalso. pose proof (in_drop i h busy Hne (Hb i hd o0 p0 Hne En Epc)) as Y. rewrite Ed in Y. destruct Y. }
   rewrite E. cbn [andb]. destruct m; reflexivity.
@@ -662,12 +767,12 @@ Proof.
 Qed.
 
 Lemma side_of : forall γ s h lg q,
-  GI γ s -> interp γ s h lg -> allowed lg q -> (needs_nofresh q = true -> fr lg = None) -> side h s lg q.
+  GI γ s -> interp γ s h lg -> allowed lg q -> (needs_nofresh q = true -> fr lg = []) -> side h s lg q.
 Proof.
-  intros γ s h lg q HG HI Hal Hnf. destruct q as [p| | | | | |names|p| |]; cbn [side]; auto.
-  - destruct (commit_sem HG HI Hal) as (pre & run & post & n & Hl & Hnames & Hlock & Hfr & Hvw & _).
-    split; [exact Hlock|]. split; [exact Hvw|]. exists n. split; [exact Hfr|].
-    rewrite Hnames. apply in_or_app. right. left. reflexivity.
+  intros γ s h lg q HG HI Hal Hnf. destruct q as [p| | | | | |names|p| | |]; cbn [side]; auto.
+  - destruct (commit_sem HG HI Hal) as (pre & run & news & post & Hl & Hnames & Hlock & _ & Hnews & Hvw & _).
+    split; [exact Hlock|]. split; [exact Hvw|]. intros n0 Hn0. apply Hnews in Hn0.
+    rewrite Hnames. apply in_or_app. right. apply in_or_app. left. exact Hn0.
   - destruct p; auto.
 Qed.
 
@@ -686,12 +791,11 @@ Proof.
   match goal with |- ?G => assert (Hnop : (w', evs) = (w, []) -> G) end.
   { intro E. inversion E; subst. exists γ, gh, busy. split; [exact HR0|]. split; [exact HB|reflexivity]. }
   destruct (nth_error (w_handles w) h) as [hd|] eqn:En; [|apply Hnop; congruence].
-  destruct (Hh h hd En) as (Hscr & Hmem & Hpc).
+  destruct (Hh h hd En) as (Hmem & Hpc).
   destruct (h_pc hd) as [|o p|] eqn:Epc; [| |apply Hnop; congruence].
   - (* a call starts *)
     destruct (h_script hd) as [|o rest] eqn:Es; [apply Hnop; congruence|].
-    cbn [forallb] in Hscr. apply andb_true_iff in Hscr as [Hmod Hrest].
-    pose proof (@call_prog_ok att o (h_mem hd) Hmod) as Hok.
+    pose proof (@call_prog_ok att o (h_mem hd)) as Hok.
     pose proof (@interp_init γ (w_fs w) h o (h_mem hd) HG Hmem) as HI.
     pose proof (res_call_prog att o (h_mem hd) (lg_init o (h_mem hd)) eq_refl) as Hres.
     assert (Hnoth : forall i hd0 o0 p0, nth_error (w_handles w) i = Some hd0 -> h_pc hd0 = HRun o0 p0 -> i <> h).
@@ -703,7 +807,7 @@ Proof.
       { constructor; cbn [w_fs w_handles]; auto.
         - exists ow'. exact How'.
         - intros i hd' E. destruct (Nat.eq_dec i h) as [->|Hne].
-          + apply nth_set_eq in E. subst hd'. split; [exact Hrest|]. split; [|exact I].
+          + apply nth_set_eq in E. subst hd'. split; [|exact I].
             cbn [h_mem x]. eapply memok_of_Qcall; [exact HI|exact Hok].
           + rewrite nth_set_neq in E by exact Hne. apply Hh. exact E.
         - eapply cover_mono; [|exact Hcov]. intros n (i & hd0 & o0 & p0 & E1 & E2 & E3).
@@ -725,7 +829,7 @@ Proof.
       * constructor; cbn [w_fs w_handles]; auto.
         -- exists ow'. exact How'.
         -- intros i hd' E. destruct (Nat.eq_dec i h) as [->|Hne].
-           ++ apply nth_set_eq in E. subst hd'. split; [exact Hrest|]. split; [exact Hmem|].
+           ++ apply nth_set_eq in E. subst hd'. split; [exact Hmem|].
               cbn [h_pc x]. unfold gh'. rewrite gupd_same. cbn [fst snd]. auto.
            ++ rewrite nth_set_neq in E by exact Hne. apply hinvR_same with (gh := gh); [exact HG| |apply Hh; exact E].
               apply gupd_other. exact Hne.
@@ -748,13 +852,13 @@ Proof.
       { constructor; cbn [w_fs w_handles]; auto.
         - exists ow'. exact How'.
         - intros i hd' E. destruct (Nat.eq_dec i h) as [->|Hne].
-          + apply nth_set_eq in E. subst hd'. split; [exact Hscr|]. split; [|exact I].
+          + apply nth_set_eq in E. subst hd'. split; [|exact I].
             cbn [h_mem x]. eapply memok_of_Qcall; [exact HI|exact Hok].
           + rewrite nth_set_neq in E by exact Hne. apply Hh. exact E.
         - eapply cover_mono; [|exact Hcov]. intros n (i & hd0 & o0 & p0 & E1 & E2 & E3).
           destruct (Nat.eq_dec i h) as [->|Hne].
           + exfalso. rewrite Egh in E3. cbn [fst snd] in E3. rewrite Hfr0, Hd0 in E3.
-            destruct E3 as [E3|E3]; [discriminate|destruct E3].
+            destruct E3 as [E3|E3]; destruct E3.
           + exists i, hd0, o0, p0. split; [|auto]. rewrite nth_set_neq; [exact E1|exact Hne]. }
       exists γ, gh, (drop h busy). split; [exact HR'|]. split.
       * intros i hd' o0 p0 E Ep. cbn [w_handles] in E. destruct (Nat.eq_dec i h) as [->|Hne].
@@ -776,8 +880,8 @@ Proof.
       set (lg' := nxt lg q rs) in *. set (d' := dead_upd lg q rs d) in *.
       set (gh' := gupd gh h (lg', d')).
       set (R := fun n => exists i hd0 o0 p0, i <> h /\ nth_error (w_handles w) i = Some hd0 /\
-                          h_pc hd0 = HRun o0 p0 /\ (fr (fst (gh i)) = Some n \/ In n (snd (gh i)))).
-      assert (Hcov' : cover s' (fun n => fr lg' = Some n \/ In n d' \/ R n)).
+                          h_pc hd0 = HRun o0 p0 /\ (In n (fr (fst (gh i))) \/ In n (snd (gh i)))).
+      assert (Hcov' : cover s' (fun n => In n (fr lg') \/ In n d' \/ R n)).
       { eapply cover_step; [exact Ea|exact Hside|].
         eapply cover_mono; [|exact Hcov]. intros n (i & hd0 & o0 & p0 & E1 & E2 & E3).
         destruct (Nat.eq_dec i h) as [->|Hne].
@@ -801,11 +905,11 @@ Proof.
           - apply (sp_GI SP).
           - exists ow'. exact How'.
           - intros i hd' E. destruct (Nat.eq_dec i h) as [->|Hne].
-            + apply nth_set_eq in E. subst hd'. split; [exact Hscr|]. split; [|exact I].
+            + apply nth_set_eq in E. subst hd'. split; [|exact I].
               cbn [h_mem x]. eapply memok_of_Qcall; [apply (sp_interp SP)|exact Hk].
             + rewrite nth_set_neq in E by exact Hne. apply Hothers; assumption.
           - eapply cover_mono; [|exact Hcov']. intros n [A|[A|A]].
-            + congruence.
+            + rewrite Hfr0 in A. destruct A.
             + rewrite Hd0 in A. destruct A.
             + apply HRo. exact A. }
         exists γ', gh', (drop h busy). split; [exact HR'|]. split.
@@ -825,7 +929,7 @@ Proof.
            ++ apply (sp_GI SP).
            ++ exists ow'. exact How'.
            ++ intros i hd' E. destruct (Nat.eq_dec i h) as [->|Hne].
-              ** apply nth_set_eq in E. subst hd'. split; [exact Hscr|]. split.
+              ** apply nth_set_eq in E. subst hd'. split.
                  { cbn [h_mem x]. intros mm E. eapply memok_stable; [exact HG|apply (sp_frame SP)|]. apply Hmem. exact E. }
                  cbn [h_pc x]. unfold gh'. rewrite gupd_same. cbn [fst snd].
                  split; [apply (sp_interp SP)|]. split; assumption.
@@ -899,17 +1003,17 @@ Proof.
 Qed.
 
 Lemma RInv_init : forall tabs scripts,
-  init_ok tabs -> Forall (fun s => forallb modelled s = true) scripts ->
+  init_ok tabs ->
   RInv (ghost0 tabs) (fun _ => (lg_init AOpen None, [])) (init_world tabs scripts).
 Proof.
-  intros tabs scripts Hi Hs. constructor.
+  intros tabs scripts Hi. constructor.
   - apply GI_init. exact Hi.
   - apply winv_init.
   - exists []. apply owners_init.
   - cbn [init_world w_fs w_handles init_fs]. repeat split; cbn [f_lock f_tlocks f_tmps lookup]; intros; discriminate.
   - cbn [init_world w_handles w_fs]. intros i hd E. apply nth_error_In in E.
-    apply in_map_iff in E as [s [<- Hin]]. rewrite Forall_forall in Hs.
-    split; [cbn; apply Hs; exact Hin|]. split; [cbn; intros; discriminate|]. cbn. exact I.
+    apply in_map_iff in E as [s [<- Hin]].
+    split; [cbn; intros; discriminate|]. cbn. exact I.
   - intros n Hn. left. cbn [init_world w_fs] in *. rewrite listed_init.
     cbn [init_fs f_tabs] in Hn. destruct (lookup n tabs) as [f|] eqn:E; [|congruence].
     apply lookup_In in E. apply in_map_iff. exists (n, f). split; [reflexivity|exact E].
@@ -919,15 +1023,15 @@ Qed.
    crashed and no handle is inside a call the directory holds exactly
    tables.list and the tables it names *)
 Theorem c16_all_traces : forall size_oracle attempts tabs scripts sched,
-  init_ok tabs -> Forall (fun s => forallb modelled s = true) scripts ->
+  init_ok tabs ->
   c16_ok (trace_of size_oracle attempts tabs scripts sched) = true.
 Proof.
-  intros so att tabs scripts sched Hi Hs.
-  pose proof (@c04_all_traces so att tabs scripts sched Hi Hs) as H4.
+  intros so att tabs scripts sched Hi.
+  pose proof (@c04_all_traces so att tabs scripts sched Hi) as H4.
   unfold c16_ok, c04_ok, trace_of in *.
   destruct (run so att (init_world tabs scripts) sched) as [w' evs] eqn:E. cbn [snd] in *.
   cbn [c16_loop].
-  apply (run_c16 so att sched _ _ (init_world tabs scripts) [] w' evs (RInv_init tabs scripts Hi Hs)).
+  apply (run_c16 so att sched _ _ (init_world tabs scripts) [] w' evs (RInv_init tabs scripts Hi)).
   - intros i hd o p En Ep. cbn [init_world w_handles] in En. apply nth_error_In in En.
     apply in_map_iff in En as [s [<- _]]. discriminate Ep.
   - exact E.
